@@ -413,6 +413,19 @@ func builtinStringSplit(call FunctionCall) Value {
 	} else {
 		separator := separatorValue.string()
 
+		if separator == "" {
+			// One element per UTF-16 code unit.
+			units := utf16.Encode([]rune(target))
+			if limit > 0 && len(units) > limit {
+				units = units[:limit]
+			}
+			valueArray := make([]Value, len(units))
+			for index := range units {
+				valueArray[index] = utf16Value(units[index : index+1])
+			}
+			return objectValue(call.runtime.newArrayOf(valueArray))
+		}
+
 		splitLimit := limit
 		excess := false
 		if limit > 0 {
